@@ -1,0 +1,18 @@
+//go:build verif
+
+// verif_hooks_c15.go: accessors used by the connection-loop check (C15) of /verif.
+// Compiled only with -tags verif; adds no behaviour to the package.
+package absnfs
+
+import "io"
+
+// VerifC15SetLogOutput redirects the server's logger, so that the harness can count
+// "recovered panic in connection handler" lines.
+func (s *Server) VerifC15SetLogOutput(w io.Writer) { s.logger.SetOutput(w) }
+
+// VerifC15ConnCount returns the number of currently registered connections.
+func (s *Server) VerifC15ConnCount() int {
+	s.connMutex.Lock()
+	defer s.connMutex.Unlock()
+	return s.connCount
+}
